@@ -8,7 +8,8 @@ from core import term as T
 
 ID = "C33"
 GEN = []
-RULE = ("cases: (configured grid-manager keys, list of certificates, server key, instants at which the predicate is called); "
+RULE = ("cases: histories in one process (genuine certificates verified first, then altered copies reusing their signatures, through "
+        "validate_grid_manager_certificate and through fresh verifier closures for several servers) and (configured grid-manager keys, list of certificates, server key, instants at which the predicate is called); "
         "certificates are valid / signed by an unconfigured key / tampered bytes / tampered signature / other server / expired / "
         "future, instants sit on and one microsecond around every expiry; non-trivial = at least one certificate verifies under a "
         "configured key and names this server (the expiry comparison decides) ; distinct = distinct (certificate kinds, expiry-vs-now "
@@ -337,6 +338,91 @@ def one_case(ctx, stream, i):
     return case, observed
 
 
+def history(ctx, i, terms, info):
+    """One process, several verifications in sequence: genuine certificates are verified FIRST (directly and through
+    verifier closures), THEN copies with altered bytes that reuse the genuine signatures are presented -- to the same and
+    to other verifiers / servers.  Whatever was verified before, a certificate counts only if its signature verifies over
+    its ACTUAL bytes."""
+    from allmydata.grid_manager import validate_grid_manager_certificate, SignedCertificate
+    r = ctx.rng("history", i)
+    w = World()
+    keys = [r.randrange(NGM) for _ in range(r.choice([1, 1, 2]))]
+    g = r.choice(keys)
+    me = r.randrange(NSRV)
+    other = (me + 1 + r.randrange(NSRV - 1)) % NSRV
+    base = datetime(2024, 1, 1, tzinfo=timezone.utc) + timedelta(seconds=r.randrange(10 ** 8), microseconds=r.randrange(10 ** 6))
+    pk_me, pk_other = key("S%d" % me)[2], key("S%d" % other)[2]
+    later = base + timedelta(days=r.randrange(1, 400))
+    past = base - timedelta(seconds=r.randrange(1, 10 ** 6))
+
+    def cert(kind, data, sig, names, exp, genuine):
+        return dict(kind=kind, data=data, sig=sig, truth=dict(signer=g, names=names, expires=exp, genuine=genuine))
+
+    dA = cert_bytes(pk_other, later.isoformat())                 # genuine, for the other server
+    dB = cert_bytes(pk_me, past.isoformat())                     # genuine, for this server, expired
+    dC = cert_bytes(pk_other, past.isoformat())                  # genuine, other server AND expired
+    A = cert("valid-other-server", dA, w.sign(g, dA), other, later, True)
+    B = cert("valid-expired", dB, w.sign(g, dB), me, past, True)
+    C = cert("valid-other-expired", dC, w.sign(g, dC), other, past, True)
+    # altered bytes, genuine signatures
+    A2 = cert("retargeted-copy", cert_bytes(pk_me, later.isoformat()), A["sig"], me, later, False)
+    B2 = cert("expiry-pushed-copy", cert_bytes(pk_me, later.isoformat()), B["sig"], me, later, False)
+    C2 = cert("rewritten-copy", cert_bytes(pk_me, later.isoformat()), C["sig"], me, later, False)
+    A3 = cert("respaced-copy", json.dumps(json.loads(dA), indent=2).encode(), A["sig"], other, later, False)
+    spk_ids = {key("S%d" % k)[2]: 10 + k for k in range(NSRV)}
+    steps = []
+
+    def direct(c, k):
+        """validate_grid_manager_certificate called on its own"""
+        try:
+            res = validate_grid_manager_certificate(key("G%d" % k)[1], SignedCertificate(certificate=c["data"], signature=c["sig"]))
+            cls = 0 if res is None else 1
+        except Exception:
+            cls = 2
+        want = 1 if w.signed.get((k, c["data"])) == c["sig"] else 0
+        ctx.case(("validate", c["kind"], k == g, cls), kind="history-validate")
+        steps.append("validate(%s, G%d)=%d" % (c["kind"], k, cls))
+        if cls != want:
+            ctx.oracle_fail("gm-validate-accepts-unsigned-bytes" if cls == 1 else "gm-validate-rejects-genuine-certificate",
+                            "after %s, validate_grid_manager_certificate(G%d, %s) %s although key G%d %s exactly these bytes"
+                            % (steps[:-1] or "nothing", k, c["kind"], {0: "returned None", 1: "returned the certificate", 2: "raised"}[cls], k,
+                               "signed" if want else "never signed"),
+                            case={"stream": "history", "index": i, "steps": list(steps), "bytes": c["data"].decode(), "sig": c["sig"].hex()},
+                            expected=want, observed=cls)
+        tbl, cs = sym_parts(w, [c], dict(spk_ids))
+        terms.append("(sym_validate_class %s %s %s =? %s)" % (T.lst(tbl), T.N(k), cs[0], T.N(cls)))
+        info.append(("history", i, {"steps": list(steps)}, cls))
+
+    def closure(certs, server):
+        """a fresh verifier over `certs` for `server`, called around the expiries"""
+        case = dict(world=w, keys=keys, certs=certs, server=server, times=[base, later - US, later, past])
+        observed, err = run_impl(case)
+        steps.append("verifier(%s for S%d)=%s" % ([c["kind"] for c in certs], server, observed))
+        judge(ctx, case, observed, err, "history", i)
+        ctx.case(("closure", tuple(c["kind"] for c in certs), server == me, tuple(observed)), kind="history-verifier")
+        terms.append(model_term(case, observed))
+        info.append(("history", i, dict(describe(case), steps=list(steps)), observed))
+
+    # 1. the genuine certificates are seen first
+    firsts = [A, B, C]
+    r.shuffle(firsts)
+    for c in firsts:
+        if r.random() < 0.7:
+            direct(c, g)
+    closure(firsts, me)
+    closure(firsts, other)
+    # 2. then the altered copies, alone / after their originals / before them, for both servers
+    for c2, c1 in r.sample([(A2, A), (B2, B), (C2, C), (A3, A)], 3):
+        direct(c2, g)
+        closure(r.choice([[c2], [c1, c2], [c2, c1], [A, B, c2]]), r.choice([me, me, other]))
+    closure([A2, B2, C2], me)
+    # 3. and the originals still count for whom they were issued
+    direct(r.choice(firsts), g)
+    closure([A3, A], other)
+    for c in firsts + [A2, B2, C2, A3]:
+        ctx.count("cert:" + c["kind"])
+
+
 def run(ctx):
     ctx.correspondence("verifier-vs-model")
     ctx.correspondence("storage-client-wiring-vs-model")
@@ -348,11 +434,14 @@ def run(ctx):
             info.append((stream, i, case, observed))
             if i < 2:
                 ctx.sample({"stream": stream, "case": describe(case), "observed": observed})
+    for i in range(ctx.n(40, 400)):
+        history(ctx, i, terms, info)
     bad = ctx.coq_check(IMPORTS, terms, tag="c33")
     for ix in bad:
         stream, i, case, observed = info[ix]
         ctx.mismatch("gm-verifier-model-vs-impl", "Coq model of create_grid_manager_verifier and the implementation differ",
-                     case=dict(describe(case), stream=stream, index=i), observed=observed, correspondence="verifier-vs-model")
+                     case=dict(case if stream == "history" else describe(case), stream=stream, index=i), observed=observed,
+                     correspondence="verifier-vs-model")
     ctx.trace(len(terms) - len(bad))
     sign_roundtrip(ctx)
     wiring(ctx)
@@ -472,6 +561,10 @@ def _wiring(ctx):
 def replay(ctx, rec):
     c = rec.get("case") or {}
     stream, i = c.get("stream"), c.get("index")
+    if stream == "history":
+        terms, info = [], []
+        history(ctx, i, terms, info)
+        return {"steps": info[-1][2].get("steps"), "model_vs_impl_disagreements": ctx.coq_check(IMPORTS, terms, tag="c33r")}
     if stream in ("wellformed", "malformed"):
         case, observed = one_case(ctx, stream, i)
         model = ctx.coq_eval(IMPORTS, model_term(case, observed))
